@@ -768,3 +768,134 @@ func SoleFeasibleLeaf(fn *ssa.Function, v ssa.Value, at ssa.Instruction) ssa.Val
 	}
 	return v
 }
+
+func instrDominates(x, y ssa.Instruction) bool {
+	if x.Block() == y.Block() {
+		for _, in := range x.Block().Instrs {
+			if in == x {
+				return true
+			}
+			if in == y {
+				return false
+			}
+		}
+		return false
+	}
+	return x.Block().Dominates(y.Block())
+}
+
+// ReachingStore: the value the local variable cell a holds at instruction `at` of a's function, when that is decided
+// by dominance: the latest store that dominates `at`, with no other store on a path between the two, the cell written
+// by the function itself only (closures may read it). nil when undecided.
+func ReachingStore(a *ssa.Alloc, at ssa.Instruction) ssa.Value {
+	if a.Referrers() == nil || at == nil || at.Parent() != a.Parent() {
+		return nil
+	}
+	var stores []*ssa.Store
+	var closureWrites func(fn *ssa.Function, fv *ssa.FreeVar, depth int) bool
+	closureWrites = func(fn *ssa.Function, fv *ssa.FreeVar, depth int) bool {
+		if fv.Referrers() == nil {
+			return false
+		}
+		for _, ref := range *fv.Referrers() {
+			switch y := ref.(type) {
+			case *ssa.Store:
+				if y.Addr == ssa.Value(fv) {
+					return true
+				}
+				return true // the address is stored somewhere
+			case *ssa.UnOp, *ssa.DebugRef:
+			case *ssa.MakeClosure:
+				g, _ := y.Fn.(*ssa.Function)
+				if g == nil || depth > 3 {
+					return true
+				}
+				for i, b := range y.Bindings {
+					if b == ssa.Value(fv) && i < len(g.FreeVars) && closureWrites(g, g.FreeVars[i], depth+1) {
+						return true
+					}
+				}
+			default:
+				return true
+			}
+		}
+		return false
+	}
+	for _, ref := range *a.Referrers() {
+		switch y := ref.(type) {
+		case *ssa.Store:
+			if y.Addr != ssa.Value(a) {
+				return nil
+			}
+			stores = append(stores, y)
+		case *ssa.UnOp, *ssa.DebugRef:
+		case *ssa.MakeClosure:
+			g, _ := y.Fn.(*ssa.Function)
+			if g == nil {
+				return nil
+			}
+			for i, b := range y.Bindings {
+				if b == ssa.Value(a) && i < len(g.FreeVars) && closureWrites(g, g.FreeVars[i], 0) {
+					return nil
+				}
+			}
+		default:
+			return nil
+		}
+	}
+	var best *ssa.Store
+	for _, st := range stores {
+		if instrDominates(st, at) && (best == nil || instrDominates(best, st)) {
+			best = st
+		}
+	}
+	if best == nil {
+		return nil
+	}
+	for _, st := range stores {
+		if st == best {
+			continue
+		}
+		other := st
+		w1 := PathQuery{Fn: a.Parent(), From: best, Target: func(in ssa.Instruction) bool { return in == ssa.Instruction(other) }}.Find()
+		w2 := PathQuery{Fn: a.Parent(), From: other, Target: func(in ssa.Instruction) bool { return in == at }}.Find()
+		if w1 != nil && w2 != nil {
+			return nil
+		}
+	}
+	return best.Val
+}
+
+// CapturedValue: what a closure reads from a captured variable of the enclosing function, when that is decided: the
+// closure is created at one site, the variable holds one decided value there (ReachingStore) and is not assigned
+// again on any path after that site. nil when undecided.
+func CapturedValue(fv *ssa.FreeVar) ssa.Value {
+	a, ok := FreeVarBinding(fv).(*ssa.Alloc)
+	if !ok || a.Parent() != fv.Parent().Parent() {
+		return nil
+	}
+	var site ssa.Instruction
+	n := 0
+	EachInstr(a.Parent(), func(in ssa.Instruction) {
+		if mc, ok := in.(*ssa.MakeClosure); ok && mc.Fn == ssa.Value(fv.Parent()) {
+			site = in
+			n++
+		}
+	})
+	if n != 1 {
+		return nil
+	}
+	v := ReachingStore(a, site)
+	if v == nil {
+		return nil
+	}
+	for _, ref := range *a.Referrers() {
+		if st, ok := ref.(*ssa.Store); ok && st.Val != v {
+			other := st
+			if (PathQuery{Fn: a.Parent(), From: site, Target: func(in ssa.Instruction) bool { return in == ssa.Instruction(other) }}).Find() != nil {
+				return nil
+			}
+		}
+	}
+	return v
+}
